@@ -19,6 +19,15 @@ CHECKS = {
              "sorted(); size >= 0.",
         technique="Coq proof (fold invariant, sortedness, interval-union extensionality) + executable model/implementation correspondence",
         ref="5/C03"),
+    "C17": dict(
+        text="Theorems reachable_invariant / ops_refine / views_agree / spec_meaning: for every initial pair list and every "
+             "operation sequence the dict+list representation of MutableMultiMapping refines a plain ordered pair list and all views "
+             "agree with it; the model (dict as ordered association list, MutableMapping mix-in methods) is compared with the live "
+             "class on all operation sequences up to length 2 (thorough 3) from all small initial lists plus random long sequences.",
+        note="Modelled, not verified: Python dict ordering, the collections.abc.MutableMapping mix-in. "
+             "query_roundtrip (parse_qsl/urlencode) is covered by the correspondence and oracle only in this version.",
+        technique="Coq proof (representation invariant by induction over operations, refinement to a list specification) + correspondence",
+        ref="5/C17"),
 }
 
 ALL = ["C%02d" % i for i in range(1, 21)]
